@@ -70,7 +70,7 @@ def run(ck):
     if THEOREMS:
         ck.prove('C05', THEOREMS)
     fails, mism = wk.campaign(ck, ck.scale(40, 1200), oracle, gen_kw={'extra_prob': 0.0, 'strip_prob': 0.25}, coq_lanes=1, coq_every=2, glue=True,
-                              stress_every=3, stress_over={'extra_prob': 0.0})      # parity-rich circuits, skewed per-line capacities, single-transition stimuli
+                              stress_every=3, stress_over={'extra_prob': 0.0, 'n_pi': 10, 'sims': 5})      # parity-rich circuits, skewed per-line capacities, single-transition stimuli
     # small-circuit stress: 2-4 gates, many lanes, so that every primitive sees internally generated pulses on its pins
     import random
     rng = random.Random(ck.seed * 7919 + 505)
